@@ -394,6 +394,9 @@ def family_model(name, d):
         cells['C1'] = '=A1' + '%' * (5 * d)
     elif name == 'compare-in-args':
         cells['C1'] = '=SUM(' + ','.join('(A1<%d)=(A2>%d)' % (i, i) for i in range(3 * d)) + ')+IF(' + 'A1<2=TRUE' + '=TRUE' * (3 * d) + ',1,2)'
+    elif name == 'chain-in-arg':
+        # one long chain of comparisons / percent signs inside an argument of a function whose arguments get methods of their own
+        cells['C1'] = '=SUM(1' + '=1' * (5 * d) + ',2)+MAX(A1' + '%' * (5 * d) + ',0)+COUNT(A1' + '<2' * (5 * d) + ')'
     elif name == 'criterion-digits':
         cells['C1'] = '=COUNTIFS(A1:A2,">' + '9' * (100 * d) + '")+SUMIF(A1:A2,"<' + '1' * (100 * d) + '.5")'
     elif name == 'criterion-exponent':
@@ -407,14 +410,14 @@ def family_model(name, d):
 
 FAMILIES = {'parens': 40, 'parens-sum': 40, 'nested-sum': 30, 'nested-if': 24, 'nested-mixed': 28, 'op-chain': 16, 'cmp-amp-chain': 16, 'unary-chain': 16,
             'args': 16, 'ifs-args': 12, 'chain-forward': 16, 'chain-backward': 16, 'long-int-literal': 16, 'long-frac-literal': 8, 'long-string': 8,
-            'wide-area': 10, 'compare-chain': 12, 'percent-run': 12, 'compare-in-args': 8, 'criterion-digits': 8, 'criterion-exponent': 12}
+            'wide-area': 10, 'compare-chain': 12, 'percent-run': 12, 'compare-in-args': 8, 'chain-in-arg': 10, 'criterion-digits': 8, 'criterion-exponent': 12}
 WORK_CAP = 6_000_000
 # sizes far beyond the unit steps (only the outcome class is judged there: python's compiler has limits of its own - about 200
 # nested brackets - that a translation must respect or reject)
 FAR = {'parens': [64, 65, 100, 199, 200, 201, 250, 400], 'parens-sum': [64, 65, 100, 199, 200, 201, 250], 'nested-sum': [64, 65, 100, 200],
        'nested-if': [64, 65, 100], 'nested-mixed': [64, 65, 120], 'unary-chain': [13, 14, 40, 41, 50, 60], 'op-chain': [40, 41, 45, 60, 100],
        'cmp-amp-chain': [40, 41, 45, 60, 100], 'args': [25, 40, 100], 'ifs-args': [40, 45], 'chain-backward': [30, 60], 'chain-forward': [60, 200],
-       'compare-chain': [25, 37, 38, 39, 40, 50, 100, 400], 'percent-run': [25, 37, 38, 39, 40, 50, 100, 400], 'compare-in-args': [20, 62, 63, 64, 65, 70, 100],
+       'compare-chain': [25, 37, 38, 39, 40, 50, 100, 400], 'percent-run': [25, 37, 38, 39, 40, 50, 100, 400], 'compare-in-args': [20, 62, 63, 64, 65, 70, 100], 'chain-in-arg': [25, 37, 38, 39, 40, 46, 50, 60, 66, 100],
        'criterion-digits': [30, 42, 43, 44, 45, 100], 'criterion-exponent': [30, 31, 32, 40, 100]}
 
 
@@ -657,6 +660,9 @@ def wb_strategy(adversarial):
                     # criterion literals: an operator and something number-like (what reaches the generated lambda must be python)
                     st.tuples(st.sampled_from(['COUNTIFS(A1:A3,', 'SUMIF(A1:A3,', 'SUMIFS(D1:D2,A1:A2,', 'AVERAGEIFS(D1:D2,A1:A2,']), st.sampled_from(['>', '<', '>=', '<=', '<>', '=', '']),
                               st.text(alphabet='0123456789.eE+-_ ٣٠x,', min_size=1, max_size=8)).map(lambda t: '=' + t[0] + '"' + t[1] + t[2] + '")'),
+                    # every pairing of range shapes under SUMIF (whole columns, areas, single cells, $-marks): translated or rejected, never a foreign exception
+                    st.tuples(st.sampled_from(['A1:A3', 'A:A', '$A:$A', 'A:B', 'A1:B3', 'A1', '$A$1', 'A1:A1']), st.sampled_from(['">0"', '2', 'B1', '"pear"']),
+                              st.sampled_from(['B1', '$B$1', 'B1:B3', 'B:B', 'D1:D2', 'C1', 'D1', 'B1:C1', 'D:D', 'D1:D1'])).map(lambda t: f'=SUMIF({t[0]},{t[1]},{t[2]})'),
                     st.tuples(st.sampled_from(['COLUMN', 'SUM', 'INDEX', 'COUNT']), st.text(alphabet='ABCXZ', min_size=1, max_size=5), st.integers(0, 3)).map(
                         lambda t: f'={t[0]}({t[1]}{t[2]}' + (',1)' if t[0] == 'INDEX' else ')')))
     formula = st.one_of(valid_formula, valid_formula, text_formula, arrayf) if not adversarial else st.one_of(valid_formula, bad, bad, text_formula)
